@@ -48,7 +48,7 @@ from rv.ref import c07_ctrl as C
 from rv.checks.c07 import build_device, start_device, draw_profiles, draw_config
 
 PROPERTY = "C08"
-CASES = {"quick": 320, "thorough": 4800}
+CASES = {"quick": 272, "thorough": 4800}
 RULE = ("case = 20-28 episodes on up to 3 devices: SET_ADDRESS/SET_CONFIGURATION with hostile wValue, probes and foreign "
         "ACK-carrying traffic between SETUP and status, un-ACKed status retries, abandoned requests followed by other "
         "transfers, bus resets / short SE0 / VBUS drops at chosen points; non-trivial = >=1 completed address change, "
